@@ -246,6 +246,9 @@ def check(run):
                     agree_rej += 1
         if mism:
             run.tie_broken('SR model vs real parser on mutated token strings', mism[:8])
+        # calls whose callee is a process set: the arguments are lookups, in the order written
+        import scopegen
+        nps = scopegen.process_set_probes(run, vlib, rng, 40 if thorough else 12, types=False)
         run.cov.update(evaluations=nreal + len(muts), distinct_nontrivial=len({c['tree'] for c in cases}),
                        traces_validated_against_impl=nreal + len(muts),
                        rule='exhaustive (context position x child operator) triples over every infix/prefix/postfix/ternary/index/call/builtin production of the regenerated table; '
